@@ -167,6 +167,10 @@ def run_all(shard, rec, B):
         ent_mask = em.copy() if B.name == "np" else B.torch.tensor(em)
         ent_mask2 = em.copy() if B.name == "np" else B.torch.tensor(em)
         ent_idx = np.array(gen.rand_subset(rng, N, int(rng.integers(1, N + 1))))
+        ent_neg = ent_idx.copy()
+        ent_neg[::2] -= N          # labels counted from the end, in the caller's own index array
+        if B.name == "torch":
+            ent_neg = B.torch.tensor(ent_neg)
         queries = [
             ("expect.list", S, [Lobs], lambda: S.expect(Lobs)),
             ("expect.poly", S, [Pol], lambda: S.expect(Pol)),
@@ -176,6 +180,7 @@ def run_all(shard, rec, B):
             ("entropy.mask", S, [ent_mask], lambda: S.entropy(ent_mask)),
             ("entropy.mask.pure", Sp, [ent_mask2], lambda: Sp.entropy(ent_mask2)),
             ("entropy.array", S, [ent_idx], lambda: S.entropy(ent_idx)),
+            ("entropy.array.negative", S, [ent_neg], lambda: S.entropy(ent_neg)),
             ("sample", S, [], lambda: S.sample(4)),
             ("get_prob", Sp, [readout], lambda: Sp.get_prob(readout)),
             ("density_matrix", S, [], lambda: S.density_matrix),
